@@ -55,6 +55,7 @@ PublicKeyW  == << F("pk", "W") >>
 PkCoordsW   == << F("pku", "W") >>              \* public key as (x, y) coordinates: uncompressed G2 point (192)
 SecretKeyW  == << F("sc", "sk") >>
 BlindFactorW == << F("sc", "blind") >>
+MessageScalarW == << F("sc", "m") >>            \* BBSplusMessage::to_bytes_be / from_bytes_be
 
 \* ---- domain separation tags: api_id || suffix ---------------------------
 \* (key generation uses its own tag; "api" is the interface id of the call)
@@ -74,7 +75,7 @@ Hashes ==
 
 Wires ==
   [ signature |-> SigW, proof |-> ProofW, commitment |-> CommitW,
-    zkpok |-> ZkpokW, pk_coords |-> PkCoordsW,
+    zkpok |-> ZkpokW, pk_coords |-> PkCoordsW, message_scalar |-> MessageScalarW,
     public_key |-> PublicKeyW, secret_key |-> SecretKeyW, blind_factor |-> BlindFactorW ]
 
 \* ---- interface identifiers ----------------------------------------------
